@@ -4299,6 +4299,8 @@ class Wallet(object):
         t_import = Transaction.parse_bytes(rawtx, network=network)
         rt = self.transaction_create(t_import.outputs, t_import.inputs, network=network, locktime=t_import.locktime,
                                      random_output_order=False)
+        # Keep the locktime of the imported transaction, also if it is 0 (signatures commit to it)
+        rt.locktime = t_import.locktime
         rt.version_int = t_import.version_int
         rt.version = t_import.version
         rt.verify()
